@@ -19,6 +19,7 @@ import (
 	"context"
 	"fmt"
 	"net"
+	"os"
 	"strings"
 	"sync"
 	"sync/atomic"
@@ -37,11 +38,21 @@ import (
 	"verif/harness/hx"
 )
 
+// tcpConnectTimeout: the clusters' connect_timeout (experiment switch C10T9_CONNECT_US: a value so small that dials to
+// live hosts time out in MOSN after the kernel completed the handshake — exercises the stale-accept detection).
+var tcpConnectTimeout = func() time.Duration {
+	if v := os.Getenv("C10T9_CONNECT_US"); v != "" {
+		var us int
+		fmt.Sscan(v, &us)
+		return time.Duration(us) * time.Microsecond
+	}
+	return 120 * time.Millisecond
+}()
+
 const (
-	tcpConnectTimeout = 120 * time.Millisecond
-	tcpReadTimeout    = 100 * time.Millisecond // types.DefaultConnReadTimeout while the kind runs
-	tcpIdleShort      = 450 * time.Millisecond // listener idle timeout of the idle scripts
-	tcpStepWait       = 4 * time.Second
+	tcpReadTimeout = 100 * time.Millisecond // types.DefaultConnReadTimeout while the kind runs
+	tcpIdleShort   = 450 * time.Millisecond // listener idle timeout of the idle scripts
+	tcpStepWait    = 4 * time.Second
 )
 
 type tcpCMF struct{}
@@ -66,6 +77,7 @@ type tcpHost struct {
 	fill   []net.Conn
 	w      *tcpWorld
 	closed int32
+	hold   int // c10t9: while a live host is down its port is kept by a bound, non-listening socket (-1: none)
 }
 
 func (h *tcpHost) addr() string { return fmt.Sprintf("127.0.0.1:%d", h.port) }
@@ -125,7 +137,7 @@ func (h *tcpHost) listen() error {
 }
 
 func (w *tcpWorld) newHost(kind byte) *tcpHost {
-	h := &tcpHost{kind: kind, w: w, fd: -1}
+	h := &tcpHost{kind: kind, w: w, fd: -1, hold: -1}
 	switch kind {
 	case 'L':
 		if err := h.listen(); err != nil {
@@ -159,6 +171,10 @@ func (h *tcpHost) shutdown() {
 	if h.fd >= 0 {
 		syscall.Close(h.fd)
 	}
+	if h.hold >= 0 {
+		syscall.Close(h.hold)
+		h.hold = -1
+	}
 }
 
 // ---------------------------------------------------------------------------------------------------------------
@@ -175,6 +191,8 @@ type tcpProxySide struct {
 	addr     *net.TCPAddr // listener whose filter names the script's cluster
 	noneAddr *net.TCPAddr // listener whose filter names a cluster that does not exist
 }
+
+var tcpPoisoned bool // c10t9: a script ended with a downstream connection MOSN never closed; no further script is run
 
 var (
 	tcpSideOnce sync.Once
@@ -269,15 +287,19 @@ type tcpSess struct {
 }
 
 type tcpWorld struct {
-	side     *tcpProxySide
-	name     string
-	hosts    []*tcpHost
-	accepted chan *tcpUpConn
-	sess     []*tcpSess
-	amb      int
-	max      int
-	info     types.ClusterInfo
-	slow     bool // an observation did not reach the reference values in time: use short waits from now on
+	side      *tcpProxySide
+	name      string
+	hosts     []*tcpHost
+	accepted  chan *tcpUpConn
+	sess      []*tcpSess
+	amb       int
+	max       int
+	info      types.ClusterInfo
+	slow      bool          // an observation did not reach the reference values in time: use short waits from now on
+	script    string        // c10t9: the case tokens (for diagnostics)
+	acceptDur time.Duration // c10t9: how long the last accept step took until the sockets showed its outcome
+	leaked    []*tcpUpConn  // c10t9: upstream connections beyond a session's own that MOSN keeps open (closed at the end)
+	skew      string        // c10t9: why this run of the script is unusable (environment, not MOSN); "" = usable
 }
 
 type tcpObs struct {
@@ -332,38 +354,53 @@ func (w *tcpWorld) settle() tcpObs {
 		wantCur = int64(w.amb) + est
 	}
 	matches := func(o tcpObs) bool { return o.cur == wantCur && o.cA == est && o.hA == est && o.nc == est }
-	limit := 2500 * time.Millisecond
+	// c10t9: the counters must have been unchanged for 20 ms PLUS three times the worst overshoot of the poll sleeps seen
+	// during this settle (a goroutine of MOSN that is about to move a counter may be waiting for a CPU just as long as we
+	// did); the budget for reaching the reference values is scaled by the measured scheduling latency, and when it runs
+	// out on a process that is not calm the wait is extended once (the counters are reported as observed in the end —
+	// a wrong counter stays wrong and is reported, a late goroutine is waited for)
+	limit := hx.Scaled(2500 * time.Millisecond)
 	if w.slow {
-		limit = 150 * time.Millisecond
+		limit = hx.Scaled(150 * time.Millisecond)
 	}
 	start := time.Now()
 	last := w.observe()
-	stable := 0
+	stableSince := time.Now()
+	var worst time.Duration
+	extended := false
 	for {
+		t := time.Now()
 		time.Sleep(4 * time.Millisecond)
-		o := w.observe()
-		if o == last {
-			stable++
-		} else {
-			stable = 0
-			last = o
+		if over := time.Since(t) - 4*time.Millisecond; over > worst {
+			worst = over
+			if over > 5*time.Millisecond {
+				hx.NoteLatency(over)
+			}
 		}
-		if stable >= 5 && matches(o) {
+		o := w.observe()
+		if o != last {
+			last = o
+			stableSince = time.Now()
+		}
+		stable := time.Since(stableSince) >= 20*time.Millisecond+3*worst
+		if stable && matches(o) {
 			return o
 		}
-		if time.Since(start) > limit && stable >= 5 {
+		if time.Since(start) > limit && stable {
+			if extended {
+				atomic.AddInt64(&tcpUselessExt, 1)
+			}
+			if !w.slow && !extended && atomic.LoadInt64(&tcpUselessExt) < 3 {
+				if calm, why, _ := tcpCalm(); !calm {
+					hx.Logf("c10 tcp: settle: reference values not reached after %v, process not calm (%s): extending", time.Since(start), why)
+					extended = true
+					limit = tcpHardCap / 2
+					continue
+				}
+			}
 			w.slow = true
 			return o
 		}
-	}
-}
-
-func tcpWait(ch chan struct{}, d time.Duration) bool {
-	select {
-	case <-ch:
-		return true
-	case <-time.After(d):
-		return false
 	}
 }
 
@@ -373,8 +410,11 @@ func (w *tcpWorld) dial(none bool) *tcpSess {
 		a = w.side.noneAddr
 	}
 	s := &tcpSess{cliEOF: make(chan struct{}), none: none}
-	c, err := net.DialTimeout("tcp", a.String(), 2*time.Second)
+	c, err := net.DialTimeout("tcp", a.String(), hx.Scaled(2*time.Second))
 	if err != nil {
+		// c10t9: the proxy's listener did not take the connection (its accept queue is full: the accept loop is not being
+		// scheduled) — nothing MOSN decided: the script is unusable
+		w.skew = "client-dial"
 		close(s.cliEOF)
 		return s
 	}
@@ -414,17 +454,34 @@ func (w *tcpWorld) step(st string, r *hx.Rng) (string, bool) {
 	op, arg := st[0], st[1:]
 	switch op {
 	case 'A', 'N': // a new downstream connection (N: through the listener whose cluster does not exist)
+		t0 := time.Now()
+		defer func() { w.acceptDur = time.Since(t0) }()
 		s := w.dial(op == 'N')
 		w.sess = append(w.sess, s)
-		select {
-		case u := <-w.accepted:
+		if w.skew != "" {
+			return "", false
+		}
+		var u *tcpUpConn
+		switch w.await("accept", func() bool {
+			select {
+			case u = <-w.accepted:
+				return true
+			case <-s.cliEOF:
+				return true
+			default:
+				return false
+			}
+		}) {
+		case awHang:
+			return "h", true
+		case awSkew:
+			return "", false
+		}
+		if u != nil {
 			s.up, s.est = u, true
 			return "e", true
-		case <-s.cliEOF:
-			return "x", true
-		case <-time.After(tcpStepWait):
-			return "h", true
 		}
+		return "x", true
 	case 'C', 'R': // the client closes (FIN) / resets
 		s := w.sessOf(arg)
 		if s == nil || s.cli == nil {
@@ -437,8 +494,13 @@ func (w *tcpWorld) step(st string, r *hx.Rng) (string, bool) {
 			tcpRST(s.cli)
 		}
 		s.est = false
-		if was && !tcpWait(s.up.eof, tcpStepWait) {
-			return "h", true
+		if was {
+			switch w.await("client-close", tcpClosed(s.up.eof)) {
+			case awHang:
+				return "h", true
+			case awSkew:
+				return "", false
+			}
 		}
 		if was {
 			return "c", true
@@ -455,8 +517,11 @@ func (w *tcpWorld) step(st string, r *hx.Rng) (string, bool) {
 			tcpRST(s.up.c)
 		}
 		s.est = false
-		if !tcpWait(s.cliEOF, tcpStepWait) {
+		switch w.await("upstream-close", tcpClosed(s.cliEOF)) {
+		case awHang:
 			return "h", true
+		case awSkew:
+			return "", false
 		}
 		s.cli.Close()
 		return "c", true
@@ -478,12 +543,11 @@ func (w *tcpWorld) step(st string, r *hx.Rng) (string, bool) {
 			s.up.c.Write(make([]byte, n))
 			n += before
 		}
-		dl := time.Now().Add(tcpStepWait)
-		for atomic.LoadInt64(cnt) < n {
-			if time.Now().After(dl) {
-				return "h", true
-			}
-			time.Sleep(time.Millisecond)
+		switch w.await("data", func() bool { return atomic.LoadInt64(cnt) >= n }) {
+		case awHang:
+			return "h", true
+		case awSkew:
+			return "", false
 		}
 		return "d", true
 	case 'H': // H<j>- take live host j down, H<j>+ bring it up again on the same port
@@ -497,17 +561,34 @@ func (w *tcpWorld) step(st string, r *hx.Rng) (string, bool) {
 			if h.ln != nil {
 				h.ln.Close()
 				h.ln = nil
+				// c10t9: a down host must stay a port on which connect is REFUSED: keep it with a bound, non-listening socket
+				// (a free port is handed by the kernel to the next listener any process of the machine opens)
+				if !tcpNoHold {
+					if h.hold = tcpHoldPort(h.port); h.hold < 0 {
+						w.skew = "port-lost"
+						return "", false
+					}
+					if _, foreign := w.foreignListener(); foreign {
+						w.skew = "port-lost"
+						return "", false
+					}
+				}
 			}
 		} else if h.ln == nil {
 			var err error
 			for i := 0; i < 20; i++ {
-				if err = h.listen(); err == nil {
+				if err = h.listen(); err == nil { // (listening is allowed while the holder is bound: no free window)
 					break
 				}
 				time.Sleep(5 * time.Millisecond)
 			}
 			if err != nil {
+				w.skew = "port-lost"
 				return "", false // the port was taken meanwhile: the script cannot continue
+			}
+			if h.hold >= 0 {
+				syscall.Close(h.hold)
+				h.hold = -1
 			}
 		}
 		return "-", true
@@ -544,11 +625,13 @@ func (w *tcpWorld) step(st string, r *hx.Rng) (string, bool) {
 		}
 		return "-", true
 	case 'I': // wait for the listener's idle timeout to close every open downstream connection
-		dl := time.Now().Add(tcpIdleShort*3 + 2*time.Second)
 		for _, s := range w.sess {
 			if s.est {
-				if !tcpWait(s.cliEOF, time.Until(dl)) {
+				switch w.awaitFor("idle-close", tcpIdleShort*3+2*time.Second, tcpClosed(s.cliEOF)) {
+				case awHang:
 					return "h", true
+				case awSkew:
+					return "", false
 				}
 				s.est = false
 				s.cli.Close()
@@ -559,11 +642,14 @@ func (w *tcpWorld) step(st string, r *hx.Rng) (string, bool) {
 	panic("c10 tcp: unknown step " + st)
 }
 
-// runTcpScript runs one script; ok=false when the environment (not MOSN) made it unusable.
-func runTcpScript(c *hx.Ctx, sc tcpScript, r *hx.Rng) (string, bool) {
+// runTcpScript runs one script; ok=false when the environment (not MOSN) made it unusable (why: the counted reason).
+func runTcpScript(c *hx.Ctx, sc tcpScript, r *hx.Rng) (out string, ok bool, why string) {
 	side := tcpGetSide()
-	w := &tcpWorld{side: side, name: fmt.Sprintf("c10tcp-%d", atomic.AddInt64(&tcpSeq, 1)), accepted: make(chan *tcpUpConn, 64), max: sc.max}
+	w := &tcpWorld{side: side, name: fmt.Sprintf("c10tcp-%d", atomic.AddInt64(&tcpSeq, 1)), accepted: make(chan *tcpUpConn, 64), max: sc.max, script: sc.caseToks()}
 	defer func() {
+		if !ok && why == "" {
+			why = w.skew
+		}
 		for _, s := range w.sess {
 			if s.cli != nil {
 				s.cli.Close()
@@ -571,6 +657,23 @@ func runTcpScript(c *hx.Ctx, sc tcpScript, r *hx.Rng) (string, bool) {
 			if s.up != nil {
 				s.up.c.Close()
 			}
+		}
+		// c10t9: MOSN closes its side of these connections on goroutines of its own: the script is over when the handler
+		// has forgotten them all (the next script, or the re-run of this one, must start on an idle proxy)
+		if !w.waitNoConnections("end-of-script") {
+			// MOSN keeps a downstream connection whose client is gone (everything parked): a leak. When the script's own line
+			// shows a hang (`h`, a violation with this script as the failing input) the line is the report and the kind stops
+			// here (later scripts would start on a proxy that is not idle); otherwise it panics as it always did
+			msg := fmt.Sprintf("c10 tcp: %d downstream connections still open after every client was closed (script %s)", side.handler.NumConnections(), sc.caseToks())
+			if ok && (strings.HasPrefix(out, "h:") || strings.Contains(out, ";h:")) {
+				hx.Logf("%s: the kind stops after this script", msg)
+				tcpPoisoned = true
+			} else {
+				panic(msg)
+			}
+		}
+		for _, u := range w.leaked {
+			u.c.Close()
 		}
 		for _, h := range w.hosts {
 			h.shutdown()
@@ -619,11 +722,11 @@ func runTcpScript(c *hx.Ctx, sc tcpScript, r *hx.Rng) (string, bool) {
 	if _, err := side.handler.AddOrUpdateListener(tcpListenerCfg("c10tcp", side.addr, w.name, idle)); err != nil {
 		panic(err)
 	}
-	base := side.handler.NumConnections()
-	if base != 0 {
-		panic(fmt.Sprintf("c10 tcp: %d downstream connections left over from the previous script", base))
+	if !w.waitNoConnections("start-of-script") {
+		panic(fmt.Sprintf("c10 tcp: %d downstream connections left over from the previous script", side.handler.NumConnections()))
 	}
-	var out []string
+	var toks []string
+	var prev tcpObs
 	batchStart := time.Time{}
 	for _, st := range sc.steps {
 		if sc.idle {
@@ -632,23 +735,47 @@ func runTcpScript(c *hx.Ctx, sc tcpScript, r *hx.Rng) (string, bool) {
 			}
 			if st[0] == 'I' {
 				if !batchStart.IsZero() && time.Since(batchStart) > tcpIdleShort/2 {
-					return "", false // the idle timer may already have fired: timing skew, not a verdict
+					return "", false, "idle-batch" // the idle timer may already have fired: timing skew, not a verdict
 				}
 				batchStart = time.Time{}
 			}
 		}
-		tok, ok := w.step(st, r)
-		if !ok {
-			return "", false
+		tok, okStep := w.step(st, r)
+		if !okStep {
+			return "", false, w.skew
 		}
 		if tok == "h" && strings.Contains(sc.hosts, "T") && !w.slow {
 			// a black hole that accepted after all (its accept queue was not full): the environment, not MOSN
-			return "", false
+			return "", false, "blackhole-accepted"
 		}
 		o := w.settle()
-		out = append(out, tok+":"+o.String())
+		if st[0] == 'A' || st[0] == 'N' {
+			s := w.sess[len(w.sess)-1]
+			failedTries, connected := o.rt > prev.rt, o.cT > prev.cT
+			// c10t9: the step took an upstream connection for the session's which is at EOF now, the client is at EOF, and
+			// MOSN's own counters say "tries failed, none connected": the accepted connection was a dial MOSN had given up
+			// (connect timeout although the kernel completed the handshake) — see staleAccepts. (A session MOSN connected
+			// — cT moved — and closed at once is NOT excused: it stays `e` and the counters tell.)
+			if tok == "e" && failedTries && !connected && tcpClosed(s.up.eof)() && tcpClosed(s.cliEOF)() {
+				return "", false, "dial-timeout-on-live-host"
+			}
+			// c10t9: in a cluster without black holes every failed try is a REFUSED dial (ConnectFailed, counted in cf); a
+			// dial whose goroutine is not scheduled for connect_timeout ends as ConnectTimeout instead (not counted in cf).
+			// When tries failed and the step took longer than the connect timeout the two cannot be told apart from outside
+			if failedTries && !strings.Contains(sc.hosts, "T") && w.acceptDur >= tcpConnectTimeout {
+				hx.Logf("c10 tcp: accept with failed tries took %v >= connect_timeout %v on a cluster without black holes: refused and timed-out dials cannot be told apart: script dropped", w.acceptDur, tcpConnectTimeout)
+				return "", false, "slow-dial"
+			}
+			// c10t9: connections our live hosts accepted beyond the session's own (see staleAccepts)
+			if n, skew := w.staleAccepts(w.sess[len(w.sess)-1]); n > 0 && skew {
+				hx.Logf("c10 tcp: %d upstream connection(s) accepted by a live host and given up by MOSN's dial (connect timeout %v under load): script dropped", n, tcpConnectTimeout)
+				return "", false, "dial-timeout-on-live-host"
+			}
+		}
+		toks = append(toks, tok+":"+o.String())
+		prev = o
 	}
-	return strings.Join(out, ";"), true
+	return strings.Join(toks, ";"), true, ""
 }
 
 // ---------------------------------------------------------------------------------------------------------------
@@ -810,25 +937,42 @@ func RunTcp(c *hx.Ctx, n int) {
 	oldRT := types.DefaultConnReadTimeout
 	types.DefaultConnReadTimeout = tcpReadTimeout
 	defer func() { types.DefaultConnReadTimeout = oldRT }()
+	hx.Calibrate()
+	defer func() {
+		sc, worst := hx.SchedScale()
+		hx.Logf("c10 tcp: budget scale %.2f, worst scheduling latency %v", sc, worst)
+		c.Count(fmt.Sprintf("tcp.budget-scale<=%d", 1<<uint(bitsFor(sc))))
+	}()
 	for i := 0; i < n; i++ {
 		sc := genTcpScript(r, i)
 		if i < len(tcpFixed) {
 			sc = tcpFixed[i]
 		}
 		fr := r.Fork()
-		var out string
+		var out, why string
 		ok := false
+		if i%10 == 0 {
+			hx.Calibrate() // c10t9: the budgets follow the scheduling latency of the machine as it is now
+		}
 		for attempt := 0; attempt < 3 && !ok; attempt++ {
-			out, ok = runTcpScript(c, sc, fr)
+			out, ok, why = runTcpScript(c, sc, fr)
 			if !ok {
 				c.Count("tcp.skew-rerun")
+				c.Count("tcp.skew=" + why)
+				hx.Calibrate()
 			}
 		}
+		tcpAccount(c, !ok, n)
 		if !ok {
 			c.Count("tcp.skew-dropped")
 			continue
 		}
 		c.Emit("C10", sc.caseToks(), out)
+		if tcpPoisoned {
+			c.Count("tcp.stopped-after-leaked-connection")
+			c.FlushNow()
+			return
+		}
 		c.Count(fmt.Sprintf("tcp.max=%d", sc.max))
 		c.Count("tcp.hosts=" + tcpHostClass(sc.hosts))
 		for _, st := range sc.steps {
@@ -855,4 +999,13 @@ func tcpHostClass(h string) string {
 		return "with-blackhole"
 	}
 	return "live+dead"
+}
+
+// bitsFor: ceil(log2(x)) for the scale bucket of the distribution (1, 2, 4, 8).
+func bitsFor(x float64) int {
+	b := 0
+	for v := 1.0; v < x; v *= 2 {
+		b++
+	}
+	return b
 }
